@@ -149,7 +149,7 @@ func (e *Env) Predict(sel map[string]bool, cfg BuildCfg) (*Pred, error) {
 		}
 		checkFails := false
 		for _, c := range t.Checks {
-			if !e.markerOn(c.Marker) {
+			if !e.checkHolds(c) {
 				checkFails = true
 			}
 		}
@@ -159,7 +159,7 @@ func (e *Env) Predict(sel map[string]bool, cfg BuildCfg) (*Pred, error) {
 		if !willFail {
 			// checks evaluated after execution: the command may establish the marker
 			for _, c := range t.Checks {
-				if !e.markerOn(c.Marker) && t.Touch != c.Marker {
+				if !e.checkHolds(c) && t.Touch != c.Marker {
 					willFail = true
 				}
 				if t.Untouch == c.Marker && t.UntouchIf != "" && e.markerOn(t.UntouchIf) {
